@@ -339,7 +339,7 @@ def nest_strategy(tier):
             "zbounds": _bounds(2, 9),
             "k": st.integers(0, 7),
             "pinPitch": st.floats(0.1, 3.0),
-            "pinKind": st.sampled_from(["hexF", "hexC", "cart"]),
+            "pinKind": st.sampled_from(["hexF", "hexC", "cart", "axial"]),
             "pinCell": st.tuples(st.integers(-6, 6), st.integers(-6, 6)).map(list),
             "coreOrigin": st.one_of(st.none(), st.tuples(st.floats(-100, 100), st.floats(-100, 100), st.floats(-100, 100)).map(list)),
             "midFree": st.one_of(st.none(), st.tuples(st.floats(-5, 5), st.floats(-5, 5), st.floats(0, 5)).map(list)),
@@ -457,7 +457,21 @@ def nest_execute(case):
         gb = block.spatialLocator.getGlobalCellBase()
         gt = block.spatialLocator.getGlobalCellTop()
         out.check(abs((gt[2] - gb[2]) - (zb[k + 1] - zb[k])) <= tol, "nest/depth2-cell-height", lambda: "cell height %r expected %r" % (gt[2] - gb[2], zb[k + 1] - zb[k]))
-        if depth >= 3:
+        if depth >= 3 and case["pinKind"] == "axial":
+            # axial-in-axial nesting (an axial sub-mesh inside a block): coordinates add, indices do NOT
+            out.label("axial-in-axial")
+            sub = [0.0, case["pinPitch"], 2.5 * case["pinPitch"], 4.0 * case["pinPitch"]]
+            block.spatialGrid = grids.AxialGrid(bounds=(None, None, np.array(sub)), armiObject=block)
+            pin = composites.Composite("slice")
+            block.add(pin)
+            kk = abs(case["pinCell"][0]) % 3
+            pin.spatialLocator = block.spatialGrid[0, 0, kk]
+            p_xyz = b_xyz + np.array((0.0, 0.0, (sub[kk] + sub[kk + 1]) / 2.0))
+            g3 = pin.spatialLocator.getGlobalCoordinates()
+            out.check(_close(g3, p_xyz, tol), "nest/axial-in-axial-global", lambda: "slice at %s expected %s" % (list(g3), list(p_xyz)))
+            got = tuple(int(x) for x in pin.spatialLocator.getCompleteIndices())
+            out.check(got == (0, 0, kk), "nest/axial-in-axial-complete-indices", lambda: "slice indices %s expected local %s" % (got, (0, 0, kk)))
+        elif depth >= 3:
             block.spatialGrid = _mkgrid(case["pinKind"], case["pinPitch"], block)
             pin = composites.Composite("pin")
             block.add(pin)
